@@ -149,12 +149,37 @@ def run_shard(spec, seed, cases, workdir, extra_args=()):
                 r["diffs"].append({"line": i, "op": o[i][:2000] if i < len(o) else "", "impl": x[:500], "model": y[:500]})
                 if len(r["diffs"]) > 20:
                     break
-    of = os.path.join(workdir, "oracle_failures.txt")
-    if os.path.exists(of):
-        r["oracle"] = [l for l in open(of).read().splitlines() if l.strip()]
     st = os.path.join(workdir, "stats.json")
     if os.path.exists(st):
         r["stats"] = json.load(open(st))
+    of = os.path.join(workdir, "oracle_failures.txt")
+    if os.path.exists(of):
+        r["oracle"] = [l for l in open(of).read().splitlines() if l.strip()]
+    # monitors that live in the model (driver mode `image`): the decoder exists only in Lean, the harness
+    # answers `skip`; a model line starting with `bad ` is a failure of the implementation's image (C16),
+    # a non-zero leak counter a failure of the page accounting (C19)
+    if spec.get("mode") == "image" and os.path.exists(os.path.join(workdir, "model.txt")):
+        o = open(ops).read().splitlines() if os.path.exists(ops) else []
+        leaks = []
+        engine_msgs, r["oracle"] = r["oracle"], []
+        for i, line in enumerate(open(os.path.join(workdir, "model.txt")).read().splitlines()):
+            op = o[i] if i < len(o) else ""
+            if line.startswith("bad "):
+                r["oracle"].append(f"C16 image monitor: {line} ({op})")
+            elif line.startswith("ok "):
+                kv = dict(x.split("=", 1) for x in line.split()[1:] if "=" in x)
+                for k, v in kv.items():
+                    if v.isdigit():
+                        r["stats"]["img_" + k + "_total"] = r["stats"].get("img_" + k + "_total", 0) + int(v)
+                if kv.get("ln_leaked", "0") != "0" or kv.get("bbn_leaked", "0") != "0":
+                    leaks.append((i, op, kv))
+            else:
+                r["oracle"].append(f"C16 image monitor: unexpected model output {line[:200]} ({op})")
+        if leaks and spec.get("leaks_fail"):
+            i, op, kv = leaks[0]
+            r["oracle"].append(f"C19 leaked pages: ln_leaked={kv.get('ln_leaked')} bbn_leaked={kv.get('bbn_leaked')} at snapshot line {i} ({op}); "
+                               f"{len(leaks)} of {len(o)} snapshots of this shard hold pages below bump that are neither in use nor tracked by the free list")
+        r["oracle"] += engine_msgs
     sp = os.path.join(workdir, "samples.txt")
     if os.path.exists(sp):
         r["samples"] = open(sp).read().splitlines()[:8]
@@ -222,7 +247,7 @@ def run_all(prop, cfg, tier, seed, workroot, scale=1, seed_shift=0):
                 jobs.append((spec, spec["seed"], int(spec["cases"][tier]), os.path.join(workroot, f"r{si}_fixed")))
             continue
         for sh_i in range(shards):
-            s = (seed + seed_shift) * 1000 + si * 100 + sh_i
+            s = spec["fixed_seed"] if "fixed_seed" in spec else (seed + seed_shift) * 1000 + si * 100 + sh_i
             jobs.append((spec, s, per, os.path.join(workroot, f"r{si}_{sh_i}_{seed_shift}")))
     results = []
     with concurrent.futures.ThreadPoolExecutor(max_workers=int(os.environ.get("VERIF_JOBS", "12"))) as ex:
